@@ -322,10 +322,10 @@ static void nested_case(Rng& rng, uint64_t)
 
 static void setup()
 {
-	add_generator("nested_reentrant", ctx().count(1500, 60000), nested_case);
-	add_generator("polynomials", ctx().count(60000, 3000000), poly_case);
-	add_generator("regular_families", ctx().count(16000, 800000), regular_case);
-	add_generator("quartic_splines", ctx().count(3000, 150000), spline_case);
-	add_generator("rough_integrands", ctx().count(8000, 400000), rough_case);
+	add_generator("nested_reentrant", ctx().count(4500, 60000), nested_case);
+	add_generator("polynomials", ctx().count(180000, 3000000), poly_case);
+	add_generator("regular_families", ctx().count(48000, 800000), regular_case);
+	add_generator("quartic_splines", ctx().count(9000, 150000), spline_case);
+	add_generator("rough_integrands", ctx().count(24000, 400000), rough_case);
 }
 VERIF_MAIN("C03", setup)
